@@ -46,6 +46,25 @@ def sweep(ctx, n):
                 local = np.concatenate([far_points(nps, 3, lo=1.5, hi=5), np.array([p1 * 0.9 + nps.uniform(-0.05, 0.05, 3) * d1, p2 + nps.uniform(-0.1, 0.1, 3) * d2])])
                 obs = ori.apply(local) + pos
                 err = rel(get(parts, obs), get(whole, obs))
+                # the same body as an n x m x k grid of cells (cuboid_grid_partition / cuboid_grid_partition_wrapper): all four
+                # fields; observers far away, inside randomly chosen cells, and close to (not on) internal cut planes
+                edges = [np.concatenate([[-0.5], np.sort(nps.uniform(-0.4, 0.4, rng.randrange(3))), [0.5]]) * dim[a_] for a_ in range(3)]
+                if all(np.min(np.diff(e_)) > 0.02 for e_ in edges):
+                    cells = [magpy.magnet.Cuboid(dimension=(x1 - x0, y1 - y0, z1 - z0), polarization=pol, position=((x0 + x1) / 2, (y0 + y1) / 2, (z0 + z1) / 2))
+                             for x0, x1 in zip(edges[0][:-1], edges[0][1:]) for y0, y1 in zip(edges[1][:-1], edges[1][1:]) for z0, z1 in zip(edges[2][:-1], edges[2][1:])]
+                    grid = place(cells)
+                    inner = []
+                    for _ in range(3):
+                        j_ = [rng.randrange(len(e_) - 1) for e_ in edges]
+                        inner.append([e_[k_] + nps.uniform(0.1, 0.9) * (e_[k_ + 1] - e_[k_]) for e_, k_ in zip(edges, j_)])
+                    near = np.array(inner[0])
+                    a_ = rng.randrange(3)
+                    near[a_] = edges[a_][rng.randrange(len(edges[a_]))] + rng.choice([-1, 1]) * 1e-6 * dim[a_]
+                    gobs = ori.apply(np.concatenate([far_points(nps, 2, lo=1.5, hi=5), np.array(inner), near[None, :]])) + pos
+                    for g_ in (magpy.getB, magpy.getH, magpy.getJ, magpy.getM):
+                        ref_ = g_(whole, gobs)
+                        if np.max(np.abs(ref_)) > 0:
+                            err = max(err, rel(g_(grid, gobs), ref_))
             elif kind == "cuboid-mesh-tetra-triangles":
                 dim = nps.uniform(0.5, 2, 3)
                 cub = magpy.magnet.Cuboid(dimension=dim, polarization=pol)
